@@ -134,6 +134,20 @@ Proof.
 Qed.
 Print Assumptions C15_partial.
 
+(* Nodes with ZERO jobs (a split over an empty list).  The termination theorems above assume >= 1 job per
+   node; for a zero-job node the model says: the poll that starts it returns nothing for it and hides its
+   consumers (they break on a node recorded as not started), the sequential loop goes round once more because
+   some node is not done, the asynchronous loop polls again inside its stall block (one extra poll per
+   consecutive zero-job node, at most ten) — and the consumers are then started.  Safety, at-most-once and the
+   Finished-state theorems (C15_all_run, C15_sync_all_run) hold for such graphs as stated (no njobs hypothesis). *)
+Example C15_zero_job_node :
+  let g := [mkNode 0 [] 1; mkNode 1 [0] 0; mkNode 2 [1] 1; mkNode 3 [2] 1] in
+  let rs := run_sync unit (fun _ _ _ => tt) (fun _ => false) repaired g None 20 in
+  let ra := run_async unit (fun _ _ _ => tt) (fun _ => false) repaired g None [] 20 in
+  o_status rs = Finished /\ launches rs = [(0, 0); (2, 0); (3, 0)]
+  /\ o_status ra = Finished /\ launches ra = [(0, 0); (2, 0); (3, 0)].
+Proof. vm_compute. repeat split. Qed.
+
 (* the hypotheses are met by the repaired code on a diamond with split nodes, and such a run does
    end by itself (status Finished) with all 7 jobs launched *)
 Example C15_hyps_nonvacuous :
